@@ -884,7 +884,7 @@ impl X {
             .iter()
             .map(|c| {
                 json!({
-                    "name": QUALS[6 + c.name as usize % 2],
+                    "name": cte_name(c.name),
                     "cols": c.effective_cols(),
                     "materialized": if self.d == Dialect::Postgres { c.materialized.map(|m| json!(m)).unwrap_or(J::Null) } else { J::Null },
                     "query": self.select(&c.query),
